@@ -307,7 +307,22 @@ def handleC17 (fields : List String) : Verdict :=
         let pattern : List Nat := (List.range (sq * sq)).map (fun c => ((c / sq % r) * r + c / sq / r + c % sq) % sq + 1)
         let boardOf := fun (g : List Nat) => fun (v : Nat) => g.getD (v / 1024) 0 == v % 1024
         -- oracle (a): every completed grid that keeps the givens satisfies the formula (r ≤ 2: all of them)
-        let sols := if r ≤ 2 then solveSudoku r givens else if blank then [pattern] else []
+        -- root 3: the puzzles of the stream are cut out of one completed grid; when the givens agree with it, it is a solution
+        let known9 : List Nat := "534678912672195348198342567859761423426853791713924856961537284287419635345286179".toList.map (fun ch => ch.toNat - '0'.toNat)
+        let agrees9 := r == 3 && (List.range 81).all (fun c => match givens[c]? with
+          | some (some d) => known9.getD c 0 == d
+          | _ => true)
+        let sols := if r ≤ 2 then solveSudoku r givens else if blank then [pattern] else if agrees9 then [known9] else []
+        -- oracle (f), root 3: exchanging a digit that is given somewhere with a digit that is given nowhere turns the
+        -- solution into another valid completed grid, which does not keep the givens and must falsify the formula
+        let ofr := if !agrees9 || blank then none else
+          let present := fun (d : Nat) => (givens.take 81).any (fun g => g == some d)
+          ((List.range 9).map (· + 1)).findSome? (fun d => if present d then none else
+            ((List.range 9).map (· + 1)).findSome? (fun e => if !present e then none else
+              let g' := known9.map (fun x => if x == d then e else if x == e then d else x)
+              if holdsConj (boardOf g') fuel f == some true then
+                some s!"the valid grid obtained from the solution by exchanging {d} and {e} does not keep the given {e}s, yet satisfies the emitted formula"
+              else none))
         let oa := match sols.find? (fun g => holdsConj (boardOf g) fuel f != some true) with
           | some g => some s!"the completed grid {g} keeps the givens and is valid, but falsifies the emitted formula"
           | none => none
@@ -346,7 +361,7 @@ def handleC17 (fields : List String) : Verdict :=
           let rowsN := rows.map (fun r => String.intercalate "." (sortStrings ((r.splitOn ".").filter (· ≠ ""))))
           if rowsN.all (want.contains ·) && want.all (rowsN.contains ·) && rowsN.length == want.length then none
           else some s!"rsbdd lists {rows.length} models, the puzzle has {want.length} solutions"
-        { modelOk, modelOut := "", oracle := orElse oa (orElse ob (orElse oc (orElse oe od))), nontrivial := r ≥ 2 }
+        { modelOk, modelOut := "", oracle := orElse oa (orElse ob (orElse oc (orElse oe (orElse od ofr)))), nontrivial := r ≥ 2 }
     | _, _ => Verdict.badLine "unreadable sudoku line"
   | _ => Verdict.badLine "unknown C17 line"
 
